@@ -207,6 +207,21 @@ def check_c06(A: Analysis, col: Collector):
     for R in run_functions(A):
         col.scope(R.fn.qualname)
         hit_condition(A, col, R, "C06.hit")
+    # the overall hash covers (field name, field hash) pairs, not the bare hashes: otherwise two
+    # tasks whose values are exchanged between two fields share a cache entry
+    ch = A.func(f"{TASK_MOD}.Task._compute_hashes")
+    rets = [n for n in walk_own(ch.node) if isinstance(n, ast.Return) and isinstance(n.value, ast.Tuple) and len(n.value.elts) == 2]
+    if rets and isinstance(rets[0].value.elts[1], ast.Name):
+        hv = rets[0].value.elts[1].id
+        first = rets[0].value.elts[0]
+        uses_items = any(isinstance(k, ast.Call) and isinstance(k.func, ast.Attribute) and k.func.attr == "items" and norm(k.func.value) == hv for k in ast.walk(first))
+        whole = any(isinstance(k, ast.Name) and k.id == hv and not isinstance(getattr(k, "_parent", None), ast.Attribute) for k in ast.walk(first))
+        if uses_items or whole:
+            col.ok("C06.identity", f"the task hash is computed over the (field name, field hash) pairs of `{hv}`", A.loc(rets[0]))
+        else:
+            col.fail("C06.identity", ch.qualname, "task-hash-without-field-names", f"the task hash is `{norm(first, 60)}`: it does not cover which field a value belongs to, so tasks whose input values are exchanged between fields (a=1,b=2 vs a=2,b=1) share a cache entry", A.loc(rets[0]))
+    else:
+        raise AnalysisError("Task._compute_hashes: `return <hash>, <per-field hashes>` not found")
     # _checksum = task type + hash
     ck = A.cls(f"{TASK_MOD}.Task").find_method("_checksum")
     txt = " ".join(norm(n.value) for n in walk_own(ck.node) if isinstance(n, ast.Return) and n.value is not None)
@@ -416,7 +431,22 @@ def memo_rule(A: Analysis, col: Collector, rule: str):
     for m in cache_cls.methods.values():
         pass
     if keeps_ref:
-        col.ok(rule, "hash_single stores a strong reference to every memoised object: ids cannot be reused while the Cache lives", A.loc(hs.node))
+        # ... for *every* object that gets a memo entry: the reference must be taken on every
+        # path that stores a hash under id(obj) (no type-based exemptions: any freed object's id
+        # can be reused, including small strings and numbers built on the fly)
+        cfg = A.cfg(hs)
+        keep_nodes = {n.id for n in cfg.nodes if any(isinstance(c, ast.Call) and isinstance(c.func, ast.Attribute) and c.func.attr in ("append", "add", "keep", "hold") and c.args and isinstance(c.args[0], ast.Name) and c.args[0].id == param for e in n.exprs for c in [e] + list(walk_own(e)))}
+        store_nodes = [n for n in cfg.nodes if n.kind == "stmt" and isinstance(n.stmt, ast.Assign) and any(isinstance(t, ast.Subscript) and norm(t.value) == "cache" for t in n.stmt.targets)]
+        def guards_of(stmt):
+            return [id(p) for p in parents(stmt) if isinstance(p, (ast.If, ast.Try, ast.For, ast.While)) and is_within(p, hs.node)]
+
+        keep_stmts = [n.stmt for n in cfg.nodes if n.id in keep_nodes]
+        # unconditional relative to the memo stores: under exactly the same enclosing branches
+        if store_nodes and keep_stmts and any(all(guards_of(ks) == guards_of(sn.stmt) or set(guards_of(ks)) <= set(guards_of(sn.stmt)) for sn in store_nodes) for ks in keep_stmts):
+            col.ok(rule, "hash_single stores a strong reference to every memoised object (unconditionally): ids cannot be reused while the Cache lives", A.loc(hs.node))
+        else:
+            keeps_ref = False
+            col.fail(rule, hs.qualname, "memo-reference-conditional", "hash_single keeps a reference only for some objects; an exempted object that is freed (e.g. a string or number built on the fly) can have its id reused by a later object, which then inherits its hash", A.loc(hs.node))
     # call sites passing fresh temporaries
     n_sites = 0
     for f in A.repo.all_functions():
